@@ -31,7 +31,7 @@ class Magnitude:
             self.error = np.full_like(self.value, self.error)
             
     def _rel_to_abs(self, rele):
-        return self.value*rele/100
+        return np.abs(self.value*rele/100)
         
     def _abs_to_rel(self, abse=None):
         if abse is None:
@@ -131,9 +131,9 @@ class Magnitude:
         if left.error is None and right.error is None:
             error = None
         elif left.error is None and right.error is not None:
-            error = right.error * left.value
+            error = np.abs(right.error * left.value)
         elif left.error is not None and right.error is None:
-            error = left.error * right.value
+            error = np.abs(left.error * right.value)
         else:
             maxerror = np.abs((left.value+left.error)*(right.value+right.error) - value)
             minerror = np.abs((left.value-left.error)*(right.value-right.error) - value)
@@ -162,7 +162,7 @@ class Magnitude:
             minerror = np.abs(left.value / (right.value-right.error) - value)
             error = np.max([maxerror,minerror])
         elif left.error is not None and right.error is None:
-            error = left.error / right.value
+            error = np.abs(left.error / right.value)
         else:
             maxerror = np.abs((left.value+left.error)/(right.value-right.error) - value)
             minerror = np.abs((left.value-left.error)/(right.value+right.error) - value)
